@@ -50,6 +50,9 @@ func dumpPathSum(cx *Ctx, spec string, quiet bool) {
 			}
 		}
 	}
+	if fn.Pkg != nil && fn.Pkg.Pkg.Path() != modPath {
+		ps.inlinePkgs = map[string]bool{fn.Pkg.Pkg.Path(): true}
+	}
 	outs := ps.Run(fn, dumpPreset)
 	fmt.Printf("%s: %d outcomes, steps %d, recorded forks %d, silent forks %d, capped %v, max %d\n", funcName(fn), len(outs), ps.steps, ps.forks, ps.silent, ps.capped, ps.maxSeen)
 	if quiet {
